@@ -58,6 +58,7 @@ static void pp_ini_file_parameter_free (PIniParameter *param);
 static PIniSection * pp_ini_file_section_new (const pchar *name);
 static void pp_ini_file_section_free (PIniSection *section);
 static pchar * pp_ini_file_find_parameter (const PIniFile *file, const pchar *section, const pchar *key);
+static PList * pp_ini_file_list_append_str (PList *list, const pchar *str);
 
 static PIniParameter *
 pp_ini_file_parameter_new (const pchar	*name,
@@ -113,6 +114,27 @@ pp_ini_file_section_free (PIniSection *section)
 	p_list_free (section->keys);
 	p_free (section->name);
 	p_free (section);
+}
+
+static PList *
+pp_ini_file_list_append_str (PList *list, const pchar *str)
+{
+	PList	*ret;
+	PList	*last;
+	pchar	*dup_str;
+
+	if (P_UNLIKELY ((dup_str = p_strdup (str)) == NULL))
+		return list;
+
+	ret  = p_list_append (list, dup_str);
+	last = p_list_last (ret);
+
+	if (P_UNLIKELY (last == NULL || last->data != dup_str)) {
+		p_free (dup_str);
+		return list;
+	}
+
+	return ret;
 }
 
 static pchar *
@@ -182,6 +204,7 @@ p_ini_file_parse (PIniFile	*file,
 	pchar		src_line[P_INI_FILE_MAX_LINE + 1];
 	pchar		key[P_INI_FILE_MAX_LINE + 1];
 	pchar		value[P_INI_FILE_MAX_LINE + 1];
+	PList		*tmp_list;
 	pint		bom_shift;
 	pboolean	is_quoted;
 
@@ -256,8 +279,14 @@ p_ini_file_parse (PIniFile	*file,
 				if (section != NULL) {
 					if (section->keys == NULL)
 						pp_ini_file_section_free (section);
-					else
-						file->sections = p_list_prepend (file->sections, section);
+					else {
+						tmp_list = p_list_prepend (file->sections, section);
+
+						if (P_UNLIKELY (tmp_list == file->sections))
+							pp_ini_file_section_free (section);
+						else
+							file->sections = tmp_list;
+					}
 				}
 
 				section = pp_ini_file_section_new (key);
@@ -286,8 +315,14 @@ p_ini_file_parse (PIniFile	*file,
 					    (strcmp (value, "\"\"") == 0 || (strcmp (value, "''") == 0)))
 						value[0] = '\0';
 
-					if (section != NULL && (param = pp_ini_file_parameter_new (key, value)) != NULL)
-						section->keys = p_list_prepend (section->keys, param);
+					if (section != NULL && (param = pp_ini_file_parameter_new (key, value)) != NULL) {
+						tmp_list = p_list_prepend (section->keys, param);
+
+						if (P_UNLIKELY (tmp_list == section->keys))
+							pp_ini_file_parameter_free (param);
+						else
+							section->keys = tmp_list;
+					}
 				}
 			}
 		}
@@ -299,8 +334,15 @@ p_ini_file_parse (PIniFile	*file,
 	if (section != NULL) {
 		if (section->keys == NULL)
 			pp_ini_file_section_free (section);
-		else
-			file->sections = p_list_append (file->sections, section);
+		else {
+			tmp_list = p_list_append (file->sections, section);
+
+			if (P_UNLIKELY (p_list_last (tmp_list) == NULL ||
+					p_list_last (tmp_list)->data != section))
+				pp_ini_file_section_free (section);
+			else
+				file->sections = tmp_list;
+		}
 	}
 
 	if (P_UNLIKELY (fclose (in_file) != 0))
@@ -325,14 +367,25 @@ p_ini_file_sections (const PIniFile *file)
 {
 	PList	*ret;
 	PList	*sec;
+	PList	*tmp_list;
+	pchar	*name;
 
 	if (P_UNLIKELY (file == NULL || file->is_parsed == FALSE))
 		return NULL;
 
 	ret = NULL;
 
-	for (sec = file->sections; sec != NULL; sec = sec->next)
-		ret = p_list_prepend (ret, p_strdup (((PIniSection *) sec->data)->name));
+	for (sec = file->sections; sec != NULL; sec = sec->next) {
+		if (P_UNLIKELY ((name = p_strdup (((PIniSection *) sec->data)->name)) == NULL))
+			continue;
+
+		tmp_list = p_list_prepend (ret, name);
+
+		if (P_UNLIKELY (tmp_list == ret))
+			p_free (name);
+		else
+			ret = tmp_list;
+	}
 
 	return ret;
 }
@@ -343,6 +396,8 @@ p_ini_file_keys (const PIniFile	*file,
 {
 	PList	*ret;
 	PList	*item;
+	PList	*tmp_list;
+	pchar	*name;
 
 	if (P_UNLIKELY (file == NULL || file->is_parsed == FALSE || section == NULL))
 		return NULL;
@@ -356,8 +411,17 @@ p_ini_file_keys (const PIniFile	*file,
 	if (item == NULL)
 		return NULL;
 
-	for (item = ((PIniSection *) item->data)->keys; item != NULL; item = item->next)
-		ret = p_list_prepend (ret, p_strdup (((PIniParameter *) item->data)->name));
+	for (item = ((PIniSection *) item->data)->keys; item != NULL; item = item->next) {
+		if (P_UNLIKELY ((name = p_strdup (((PIniParameter *) item->data)->name)) == NULL))
+			continue;
+
+		tmp_list = p_list_prepend (ret, name);
+
+		if (P_UNLIKELY (tmp_list == ret))
+			p_free (name);
+		else
+			ret = tmp_list;
+	}
 
 	return ret;
 }
@@ -496,7 +560,7 @@ p_ini_file_parameter_list (const PIniFile	*file,
 			buf[buf_cnt] = '\0';
 
 			if (buf_cnt > 0)
-				ret = p_list_append (ret, p_strdup (buf));
+				ret = pp_ini_file_list_append_str (ret, buf);
 
 			buf_cnt = 0;
 		}
@@ -506,7 +570,7 @@ p_ini_file_parameter_list (const PIniFile	*file,
 
 	if (buf_cnt > 0) {
 		buf[buf_cnt] = '\0';
-		ret = p_list_append (ret, p_strdup (buf));
+		ret = pp_ini_file_list_append_str (ret, buf);
 	}
 
 	p_free (val);
